@@ -136,6 +136,8 @@ var redirectTable = map[string][2]string{
 	repoMod + "/shovel/config.Sources":                    {repoMod + "/shovel/config", "zzDBSources"},
 	"github.com/jackc/pgx/v5.CollectRows":                 {repoMod + "/shovel/config", "zzCollectColumns"},
 	"github.com/kr/session.Get":                           {repoMod + "/shovel/web", "zzSessionGet"},
+	"github.com/kr/session.Decode":                        {repoMod + "/shovel/web", "zzSessionDecode"},
+	"(*net/http.Request).Cookie":                          {repoMod + "/shovel/web", "zzCookieOf"},
 	"github.com/kr/session.Set":                           {repoMod + "/shovel/web", "zzSessionSet"},
 	"net/http.Redirect":                                   {repoMod + "/shovel/web", "zzRedirect"},
 	"net/http.Error":                                      {repoMod + "/shovel/web", "zzHTTPError"},
@@ -172,6 +174,8 @@ var nativeCuts = []nativeCut{
 		All:  true,
 		Repl: [][2]string{
 			{"session.Set(", "zzSessionSet("},
+			{"session.Decode(", "zzSessionDecode("},
+			{"r.Cookie(", "zzCookieOf(r, "},
 			{"http.Redirect(", "zzRedirect("},
 			{"http.Error(", "zzHTTPError("},
 			{"r.ParseForm()", "zzParseForm(r)"},
